@@ -132,7 +132,7 @@ def main():
     def okrun(e):
         return not e["rnd"]["err"] and e["input"]["ctx0"] == "none"
     corruptions = [
-        ("render skipped a round", lambda e: len(e["rnd"]["calls"]) >= 2 and e["rnd"]["calls"][-1]["round"] > 0,
+        ("render skipped a round", lambda e: e["input"]["ctx0"] == "none" and len(e["rnd"]["calls"]) >= 2 and e["rnd"]["calls"][-1]["round"] > 0,
          lambda e: e["rnd"]["calls"].pop(), ["Render.RoundsRerun", "Reference.Calls", "Parity.Calls"]),
         ("a composed resource the functions did not desire", lambda e: okrun(e) and len(e["rnd"]["composed"]) == 1 and e["rnd"]["composed"][0]["n"] == "a",
          lambda e: e["rnd"]["composed"].append(dict(e["rnd"]["composed"][0], n="b")), ["Render.Final", "Parity.Composed"]),
